@@ -29,4 +29,10 @@ else
   # keep the c17 package compilable in the other binaries
   printf 'package c17\n\nfunc resetPackages() {}\n' > "$S/util/internal/vsim/c17/reset_gen.go"
 fi
+if [ "$ID" = C20 ]; then
+  # the helpers under test run unmodified; only the per-run reset of package test's state is generated
+  (cd "$HOME_V/sim/rewrite" && go run main.go -reset "$S/util" "$S/util/internal/vsim/c20/reset_gen.go" test)
+else
+  printf 'package c20\n\nfunc resetPackages() {}\n' > "$S/util/internal/vsim/c20/reset_gen.go"
+fi
 (cd "$S/util" && go build -tags "$TAGS" -o "$S/bin/verif" ./vsimcmd)
